@@ -31,22 +31,25 @@ PROFILES = {
     "types": dict(p_multitype=0.45, p_box=0.3, w_struct=7, w_enum=2, w_alias=2, p_include=0.2, p_keywords=0.35,
                   p_position=0.3, w_extern=1, nrules=(3, 8)),
     "unicode": dict(p_unicode=0.7, p_insens=0.2, w_char=3, w_string=3, p_ccheck=0.3, w_extern=1, p_position=0.4),
-    "memo": dict(p_memo=0.5, p_lookahead=0.2, nrules=(3, 7), p_check=0.3, p_ccheck=0.2, w_extern=2, w_char=2),
-    "memofail": dict(p_memo=1.0, p_probe=0.7, p_lookahead=0.15, w_extern=1, nrules=(3, 6), p_check=0.35, p_ccheck=0.2, w_char=2),
+    # mostly character classes with multi-byte members, used through closures / choices so that every class is tried on many
+    # characters (members, non-members, neighbours in the encoding)
+    "charclass": dict(p_unicode=0.75, w_char=8, w_string=3, w_struct=3, w_unit=0, w_alias=1, w_enum=1, nrules=(3, 6), p_ccheck=0.2, p_lookahead=0.2, p_memo=0.2),
+    "memo": dict(p_shared_prefix=0.35, p_memo=0.5, p_lookahead=0.2, nrules=(3, 7), p_check=0.3, p_ccheck=0.2, w_extern=2, w_char=2),
+    "memofail": dict(p_shared_prefix=0.5, w_alias=3, p_memo=1.0, p_probe=0.7, p_lookahead=0.15, w_extern=1, nrules=(3, 6), p_check=0.35, p_ccheck=0.2, w_char=2),
     "dupfields": dict(nrules=(2, 4), depth=4, small_fieldpool=3, p_multitype=0.85, w_struct=8, w_string=3, w_unit=0, w_alias=0,
                       w_enum=0, w_char=1, p_include=0.15, p_lookahead=0.03, p_noskip=0.1, dense_fields=True),
     "leftrec": dict(leftrec=1.0, p_memo=0.1, p_position=0.3, p_check=0.4, p_probe=0.5),
     "ws": dict(p_noskip=0.5, p_user_ws=0.35, p_include=0.25, w_string=3, p_position=0.3, p_ws_lit=0.15),
     "position": dict(p_position=0.8, p_unicode=0.3, w_string=3, w_enum=2, p_memo=0.15, leftrec=0.15),
     "errors": dict(p_lookahead=0.25, p_check=0.25, w_extern=1, w_char=2, p_ccheck=0.3, p_eoi_root=0.8),
-    "include": dict(p_include=0.6, p_noskip=0.4, p_position=0.3, p_memo=0.15, p_check=0.15, w_struct=8,
+    "include": dict(p_lonely_include=0.35, p_nest_include=0.6, p_name_family=0.3, p_include=0.6, p_noskip=0.4, p_position=0.3, p_memo=0.15, p_check=0.15, w_struct=8,
                     w_unit=2, w_alias=0, w_enum=1),
     "userfn": dict(p_check=0.6, p_ccheck=0.6, w_extern=4, w_char=2, user_ctx=0.4, w_string=2, w_enum=2, w_alias=2, leftrec=0.3),
     "trace": dict(p_memo=0.3, leftrec=0.3, p_check=0.3, w_extern=2, p_ccheck=0.2),
     "keywords": dict(p_keywords=0.8),
     # every feature at once: the combinations (memo x check, leftrec x position, extern x @string, ctx x include ...)
     # are where single-feature profiles are blind; one shared run of this profile is part of most quick tiers
-    "mix": dict(p_memo=0.25, leftrec=0.3, p_check=0.35, p_ccheck=0.3, w_extern=2, w_char=2, user_ctx=0.25, p_user_ws=0.2,
+    "mix": dict(p_lonely_include=0.08, p_nest_include=0.15, p_shared_prefix=0.2, p_memo=0.25, leftrec=0.3, p_check=0.35, p_ccheck=0.3, w_extern=2, w_char=2, user_ctx=0.25, p_user_ws=0.2,
                 p_include=0.2, p_position=0.4, p_unicode=0.3, p_lookahead=0.15, p_multitype=0.35, p_box=0.2, w_enum=2,
                 w_alias=1, p_noskip=0.35, p_keywords=0.1, p_insens=0.12, nrules=(3, 8), p_ws_lit=0.08, p_probe=0.5),
 }
@@ -109,10 +112,106 @@ class Gen:
             try:
                 g = self._grammar()
                 check_wellformed(g)
+                if self.coin(self.p.get("p_lonely_include", 0.0)):
+                    g2 = self.lonely_include(g)
+                    if g2 is not None:
+                        try:
+                            check_wellformed(g2)
+                            check_types(g2)
+                            g = g2
+                        except Invalid:
+                            pass
+                if self.coin(self.p.get("p_nest_include", 0.0)):
+                    g2 = self.nest_includes(g)
+                    if g2 is not None:
+                        try:
+                            check_wellformed(g2)
+                            check_types(g2)
+                            return g2
+                        except Invalid:
+                            pass
                 return g
             except Invalid:
                 continue
         raise RuntimeError("generator could not produce a well-formed grammar")
+
+    def lonely_include(self, g):
+        """a new rule whose body is one single element, included as the only content of an optional / closure / group
+        ( [>One]  {>One}  {>One}+  [(>One)] ) somewhere in an existing rule"""
+        import copy
+        g = copy.deepcopy(g)
+        hosts = [r for r in g.rules if r.kind == "rule" and not r.has("string") and self.kinds.get(r.name) == "struct"]
+        if not hosts or g.rule("One") is not None:
+            return None
+        host = self.r.choice(hosts)
+        chars = [r.name for r in g.rules if r.kind == "char"]
+        x = self.r.random()
+        if x < 0.3:
+            el = self.lit_nonempty()
+        elif x < 0.45:
+            el = self.rng()
+        elif x < 0.8:
+            el = Ref(self.r.choice(chars + ["char"]), self.r.choice(self.fieldpool))
+        else:
+            el = Ref(self.r.choice(chars + ["char"]))
+        if self.coin(0.15):
+            el = Grp(Cho([Seq([el])]))
+        one = Rule("One", Cho([Seq([el])]), (["no_skip_ws"] if self.coin(0.3) else []) + (["position"] if self.coin(0.2) else []))
+        inc = Inc("One")
+        piece = self.r.choice([Opt(Cho([Seq([inc])])), Clo(Cho([Seq([inc])])), Clo(Cho([Seq([inc])]), True), Opt(Cho([Seq([Grp(Cho([Seq([inc])]))])])),
+                               Clo(Cho([Seq([Grp(Cho([Seq([inc])]))])]))])
+        alt = self.r.choice(host.body.alts)
+        alt.parts.insert(self.r.randint(0, len(alt.parts)), piece)
+        g.rules.append(one)
+        self.kinds["One"] = "struct"
+        return g
+
+    def nest_includes(self, g):
+        """make an include chain of depth >= 2 ( R has >J, J gets >K ) and give the rules of the chain names that are
+        prefixes of one another (Item inside ItemList, R1 inside R10) - in both directions"""
+        import copy
+        g = copy.deepcopy(g)
+        rules = {r.name: r for r in g.rules if r.kind == "rule"}
+        order = [r.name for r in g.rules]
+        included = sorted({e.rule for r in rules.values() for e in subexprs(r.body) if isinstance(e, Inc)})
+        included = [j for j in included if j in rules]
+        if not included:
+            return None
+        j = self.r.choice(included)
+        inner = [e.rule for e in subexprs(rules[j].body) if isinstance(e, Inc) and e.rule in rules]
+        if inner:
+            k = self.r.choice(inner)
+        else:
+            allowed = ("unit", "string") if self.kinds.get(j) in ("unit", "string") else ("struct", "unit", "string")
+            cands = [n for n in order[order.index(j) + 1:] if n in rules and self.kinds.get(n) in allowed and n != j]
+            if not cands:
+                return None
+            k = self.r.choice(cands)
+            inc = Inc(k)
+            alt = self.r.choice(rules[j].body.alts)
+            piece = self.r.choice([inc, Opt(Cho([Seq([inc])])), Grp(Cho([Seq([inc])])), Clo(Cho([Seq([Lit(","), inc])]))])
+            alt.parts.insert(self.r.randint(0, len(alt.parts)), piece)
+        if j == k or self.kinds.get(j) is None or self.kinds.get(k) is None or j not in RULE_NAMES and k not in RULE_NAMES:
+            return g
+        base = k if k in RULE_NAMES else j
+        suffix = self.r.choice(["List", "s", "1", "10", "_", "Tail"])
+        taken = set(order)
+        if base + suffix in taken:
+            return g
+        # outer name extends the inner one (the shape a cycle guard keyed on text would trip over), or the reverse
+        mapping = {j: base + suffix, k: base} if self.coin(0.7) else {k: base + suffix, j: base}
+        if any(v in taken and v not in mapping for v in mapping.values()):
+            return g
+        for r in g.rules:
+            if r.name in mapping:
+                r.name = mapping[r.name]
+            if r.kind == "rule":
+                for e in subexprs(r.body):
+                    if isinstance(e, (Ref, Inc)) and e.rule in mapping:
+                        e.rule = mapping[e.rule]
+            elif r.kind == "char":
+                r.parts = [("ref", mapping.get(pt[1], pt[1])) if pt[0] == "ref" else pt for pt in r.parts]
+        return g
 
     def _names(self, n):
         names = []
@@ -125,6 +224,16 @@ class Gen:
                 names.append(kw.pop())
             else:
                 names.append(pool.pop())
+        if n >= 2 and self.coin(self.p.get("p_name_family", 0.2)):
+            # names that are prefixes of one another (Item / Items / ItemList / Item1 / Item10), at random places
+            plain = [i for i, x in enumerate(names) if x in RULE_NAMES]
+            if len(plain) >= 2:
+                base = names[plain[0]]
+                fam = [base, base + "s", base + "List", base + "1", base + "10", base + "_"]
+                self.r.shuffle(fam)
+                k = self.r.randint(2, min(len(plain), 4))
+                for i, nm in zip(self.r.sample(plain, k), fam):
+                    names[i] = nm
         return names
 
     def _grammar(self) -> Grammar:
@@ -353,7 +462,15 @@ class Gen:
         if depth > 0 and self.coin(0.015):
             n = self.r.randint(10, 13)  # wide choice (generated names choice_10 ..)
             return Cho([self.seq(0, mode, consumed) for _ in range(n)])
-        return Cho([self.seq(depth, mode, consumed) for _ in range(n)])
+        alts = [self.seq(depth, mode, consumed) for _ in range(n)]
+        if n >= 2 and self.coin(self.p.get("p_shared_prefix", 0.1)):
+            # alternatives that start with the same rule reference: the second one re-enters that rule at the same
+            # position (the situation memoization exists for)
+            import copy
+            pref = self.ref(mode, consumed)
+            for a in alts:
+                a.parts.insert(0, copy.deepcopy(pref))
+        return Cho(alts)
 
     def seq(self, depth, mode, consumed):
         n = self.r.choices([0, 1, 2, 3, 4], [0.3, 3, 4, 3, 1])[0]
@@ -459,6 +576,13 @@ class Gen:
             # "All field declarations will be ignored" in @string rules - including override fields
             ts = self.r.sample(later + ["char"], min(len(later) + 1, self.r.randint(1, 3)))
             return Cho([Seq(([self.lit_nonempty()] if self.coin(0.3) else []) + [Ref(t, "@", False)]) for t in ts])
+        if self.coin(0.12):
+            # the whole rule is one literal (keyword rules): the value is still the consumed slice of the input -
+            # the input's spelling of a case-insensitive literal, including what the rule skipped in front of it
+            l = self.lit_nonempty()
+            if self.coin(0.5) and l.s.isascii() and any(c.isalpha() for c in l.s):
+                l = Lit(l.s, True)
+            return Cho([Seq([l])])
         if x < 0.4:
             rg = self.rng()
             return Cho([Seq([Clo(Cho([Seq([rg])]), True)])])
@@ -504,7 +628,7 @@ class Gen:
     def leftrec_cluster(self):
         """a left-recursive cluster appended to the grammar; returns entry rule + rules"""
         r = self.r
-        style = r.randint(0, 5)
+        style = r.randint(0, 6)
         ops = r.sample(["+", "-", "*", "x", "ab", "=>", ","], 3)
         d_pos = (lambda: ["position"] if self.coin(self.p["p_position"]) else [])
         atom_body = r.choice([
@@ -535,12 +659,33 @@ class Gen:
             rules.append(Rule("LSub", Cho([Seq([Ref("LRec", "l", True), Lit(ops[1]), Ref("LAtom", "r")])]), d_pos()))
             entry = "LRec"
         elif style == 2:
-            # two nested left-recursive rules (calculator)
-            rules.append(Rule("LRec", Cho([Seq([Ref("LAdd", "@")]), Seq([Ref("LTerm", "@")])]), ["leftrec"]))
+            # two nested left-recursive rules (calculator); optionally a prefix operator (a non-recursive alternative
+            # tried before the recursive one) and shuffled alternative order
+            r_alts = [Seq([Ref("LAdd", "@")]), Seq([Ref("LTerm", "@")])]
+            t_alts = [Seq([Ref("LMul", "@")]), Seq([Ref("LFactor", "@")])]
+            if self.coin(0.5):
+                rules.append(Rule("LNeg", Cho([Seq([Lit(ops[2]), Ref("LAtom", "value")])]), d_pos()))
+                t_alts.insert(0, Seq([Ref("LNeg", "@")]))
+            if self.coin(0.25):
+                r.shuffle(t_alts)
+            if self.coin(0.2):
+                r.shuffle(r_alts)
+            rules.append(Rule("LRec", Cho(r_alts), ["leftrec"]))
             rules.append(Rule("LAdd", Cho([Seq([Ref("LRec", "l", True), Lit(ops[0]), Ref("LTerm", "r")])]), d_pos()))
-            rules.append(Rule("LTerm", Cho([Seq([Ref("LMul", "@")]), Seq([Ref("LFactor", "@")])]), ["leftrec"]))
+            rules.append(Rule("LTerm", Cho(t_alts), ["leftrec"]))
             rules.append(Rule("LMul", Cho([Seq([Ref("LTerm", "l", True), Lit(ops[1]), Ref("LFactor", "r")])]), d_pos()))
             rules.append(Rule("LFactor", Cho([Seq([Ref("LAtom", "@")]), Seq([Lit("("), Ref("LRec", "@", True), Lit(")")])]), []))
+            entry = "LRec"
+        elif style == 6:
+            # one left-recursive rule re-entered at later positions (brackets), with non-recursive alternatives
+            # before and after the recursive one
+            alts = [Seq([Ref("LQuoted", "@")]), Seq([Ref("LDot", "@")]), Seq([Ref("LParen", "@")]), Seq([Ref("LAtom", "@")])]
+            if self.coin(0.3):
+                r.shuffle(alts)
+            rules.append(Rule("LRec", Cho(alts), ["leftrec"]))
+            rules.append(Rule("LQuoted", Cho([Seq([Lit(ops[2]), Ref("LAtom", "name")])]), d_pos()))
+            rules.append(Rule("LDot", Cho([Seq([Ref("LRec", "base", True), Lit(ops[0]), Ref("LAtom", "member")])]), d_pos() + chk()))
+            rules.append(Rule("LParen", Cho([Seq([Lit("("), Ref("LRec", "inner", True), Lit(")")])]), d_pos()))
             entry = "LRec"
         elif style == 3:
             # postfix chain with optional parts, recursion through a nullable prefix
@@ -566,7 +711,7 @@ class Gen:
         # plain @memoize rules evaluated at the position where a left-recursive rule starts (atoms / factors):
         # their cached results must survive the growth of the seed
         for ru in list(rules):
-            if "leftrec" not in ru.directives and ru.name in ("LAtom", "LFactor", "LMul", "LAdd", "LSub") and self.coin(0.3):
+            if "leftrec" not in ru.directives and ru.name in ("LAtom", "LFactor", "LMul", "LAdd", "LSub", "LNeg", "LQuoted", "LDot", "LParen") and self.coin(0.3):
                 ru.directives.append("memoize")
                 if self.p["p_probe"] > 0 and self.coin(self.p["p_probe"]) and self.probe_id < 16:
                     pn = "Probe%d" % self.probe_id
@@ -584,7 +729,7 @@ class Gen:
                     for alt in ru.body.alts:
                         s0 = set()
                         left_calls(alt, Grammar(rules), {x.name: False for x in rules}, s0)
-                        if not (s0 & {"LRec", "LTerm", "LAdd", "LSub", "LMul"}) and len(alt.parts) == 1 and isinstance(alt.parts[0], Ref) and alt.parts[0].rule == "LAtom":
+                        if not (s0 & {"LRec", "LTerm", "LAdd", "LSub", "LMul", "LDot"}) and len(alt.parts) == 1 and isinstance(alt.parts[0], Ref) and alt.parts[0].rule == "LAtom":
                             ref = alt.parts[0]
                             if ref.field == "@":
                                 continue  # an override must stay exactly-once
